@@ -63,6 +63,8 @@ structure DState where
   sdead : List Conn := []        -- stream ended (by the rule of the ops)
   sn : Nat := 0                  -- connections opened so far
   sended : Bool := false
+  supd : Nat := 0                -- updates issued so far (every update names keys of its own: name~<n>)
+  sforced : List String := []    -- keys of forced updates
 
 /-- `nil`, `last`, or an index below `n`. -/
 def parseRef (n : Nat) (last : Option Ref) (t : String) : Option (Option Ref) :=
@@ -472,10 +474,23 @@ def srvSettle : Nat → DState → DState
     | some s' => srvSettle n s'
     | none => s
 
+/-- What the deliveries to `c` say: "c:<key>" for every key, "f:<key>" for a key of a forced update that
+    arrived in a forced request; `cur` = the last delivery carried the newest snapshot. -/
+def srvSeen (s : DState) (c : Conn) : String :=
+  let ds := s.pipe.seenLog.filter (fun e => e.1 == c)
+  let keysOf := fun (fs : List Fact) => fs.filterMap (fun f => match f with | .cfg k => some k | _ => none)
+  let cs := ds.flatMap (fun e => (keysOf e.2.2).map (fun k => "c:" ++ k))
+  let fs := ds.flatMap (fun e => if e.2.2.contains .forced then
+      ((keysOf e.2.2).filter (fun k => s.sforced.contains k)).map (fun k => "f:" ++ k) else [])
+  let cur := match ds.getLast? with
+    | none => "-"
+    | some e => boolTok (e.2.1 == some s.pipe.version)
+  s!"{encSet (cs ++ fs)};cur={cur}"
+
 def srvSummary (s : DState) : String :=
   if s.sn == 0 then "-" else
   " ".intercalate ((List.range s.sn).map (fun c =>
-    if s.sdead.contains c then s!"{c}=dead" else s!"{c}={encSet ((s.pipe.seen c).map factStr)}"))
+    if s.sdead.contains c then s!"{c}=dead" else s!"{c}={srvSeen s c}"))
 
 def srvStuck (s : DState) : Bool :=
   !s.sheld.isEmpty || s.sblocked.any (fun c => !s.sdead.contains c)
@@ -493,9 +508,11 @@ def stepServer (s : DState) (toks : List String) : DState × String :=
   match toks with
   | ["update", f, ks] =>
     if s.sended then (s, "bad-op") else
-    let v : View := { configs := some (decList ks), forced := tokBool f, reason := some [("config", 1)] }
+    let keys := (decList ks).map (fun k => k ++ "~" ++ toString s.supd)
+    let v : View := { configs := some keys, forced := tokBool f, reason := some [("config", 1)] }
     let s1 := if s.pipe.chan.length < chanCap then s else srvSettle 1000 s   -- ConfigUpdate blocks while the channel is full
-    ({ s1 with pipe := pev s1.pipe (.configUpdate v) }, "ok")
+    ({ s1 with pipe := pev s1.pipe (.configUpdate v), supd := s1.supd + 1
+               sforced := if tokBool f then s1.sforced ++ keys else s1.sforced }, "ok")
   | [op, i, kind] =>
     if (op != "conn" && op != "connheld") || (kind != "sotw" && kind != "delta") || s.sended then (s, "bad-op") else
     match i.toNat? with
